@@ -166,6 +166,16 @@ func c02priority(c *Ctx, p *Prog, as string) {
 				tag := symField(p.SymFrame(fr, consumed), "Priority").StripInst()
 				chs := p.Sym(src.Chan)
 				key := tableKeyOf(chs)
+				if key == nil && chs.StripConv().Op == "param" {
+					// the channel was looked up by the caller and handed in (io(priority, channel)):
+					// compare key and tag as the call sites see them
+					if up := p.upParam(chs, 0); tableKeyOf(up) != nil {
+						key = tableKeyOf(up)
+						if tag.Op == "param" {
+							tag = p.upParam(tag, 0).StripInst()
+						}
+					}
+				}
 				if key == nil {
 					m := fmt.Sprintf("UNDECIDED: input channel expression %s at %s is not a lookup in the input table", chs, src.Pos(p))
 					x4 = append(x4, m)
